@@ -166,12 +166,75 @@ fn build(objs: &mut HashMap<String, Obj>, op: &J) -> Result<(), String> {
                     eval.set_loader(&loader);
                     eval.extra = Some(&store);
                     let ast = AstModule::parse(&id, src, &Dialect::AllOptionsInternal).map_err(|e| e.to_string())?;
-                    eval.eval_module(ast, &globals).map_err(|e| format!("{}", e.without_diagnostic()))?;
+                    // "gc": collect at every safepoint of this module's evaluation (hook H1): the references a value heap
+                    // holds on frozen heaps must survive collections
+                    let gc = op.get("gc").and_then(|g| g.as_bool()) == Some(true);
+                    if gc {
+                        starlark::verif::set_gc_schedule(vec![], true);
+                    }
+                    let r = eval.eval_module(ast, &globals).map_err(|e| format!("{}", e.without_diagnostic()));
+                    if gc {
+                        starlark::verif::clear_gc_schedule();
+                    }
+                    r?;
                 }
                 m.freeze().map_err(|e| format!("{:?}", e))
             })?;
             drop(loader);
             Obj::Module(fm)
+        }
+        // A value obtained through load() is kept as a `Value<'v>` of the still-living value heap while the importing module
+        // is dropped (frozen first or not) and the exporters are dropped: the value heap must keep them alive.
+        "module_hold" => {
+            let src = op["src"].as_str().unwrap().to_owned();
+            let name = op["name"].as_str().unwrap().to_owned();
+            let freeze = op.get("freeze").and_then(|x| x.as_bool()) == Some(true);
+            let gc = op.get("gc").and_then(|g| g.as_bool()) == Some(true);
+            let mut loader = Loader { modules: HashMap::new() };
+            let loads: Vec<String> = op["loads"].as_array().unwrap().iter().map(|l| l.as_str().unwrap().to_owned()).collect();
+            for l in &loads {
+                loader.modules.insert(l.clone(), module_of(objs, l)?.dupe());
+            }
+            let r = Module::with_temp_heap(|m| -> Result<(), String> {
+                {
+                    let mut eval = Evaluator::new(&m);
+                    eval.set_loader(&loader);
+                    eval.extra = Some(&store);
+                    let ast = AstModule::parse(&id, src, &Dialect::AllOptionsInternal).map_err(|e| e.to_string())?;
+                    if gc {
+                        starlark::verif::set_gc_schedule(vec![], true);
+                    }
+                    let r = eval.eval_module(ast, &base_globals()).map_err(|e| format!("{}", e.without_diagnostic()));
+                    if gc {
+                        starlark::verif::clear_gc_schedule();
+                    }
+                    r?;
+                }
+                let v = m.get(&name).ok_or("no such variable")?;
+                let before = enc::encode(v);
+                // the importing module goes away (its value heap does not: we are inside its scope) ...
+                if freeze {
+                    let fm = m.freeze().map_err(|e| format!("{:?}", e))?;
+                    let seen = observe(&Obj::Module(fm.dupe()));
+                    drop(fm);
+                    let _ = seen;
+                } else {
+                    drop(m);
+                }
+                // ... and so do the exporters and the loader
+                drop(loader);
+                for l in &loads {
+                    objs.remove(l);
+                }
+                noise(3);
+                let after = enc::encode(v);
+                if before != after {
+                    return Err(format!("CONTENT CHANGED: value obtained through load() read {before} before and {after} after its exporter was dropped"));
+                }
+                Ok(())
+            });
+            r?;
+            return Ok(());
         }
         "handle" => {
             let m = module_of(objs, op["module"].as_str().unwrap())?;
